@@ -132,6 +132,28 @@ class C23(PtgCheck):
             return "run-failed"
         return "other"
 
+    def shrink(self, case, impl_line):
+        """keep only the class the oracle names, when it has no task dependencies, and re-run"""
+        why = self.oracle(case, impl_line) or ""
+        m = re.search(r"key of ([A-Za-z_]\w*)\(", why) or re.search(r"collision: ([A-Za-z_]\w*)\(", why)
+        try:
+            hd, pt = case.split("|", 1)
+            prog = jdfgen.parse_case(pt)
+            keep = [c for c in prog.classes if m and c.name == m.group(1)]
+            if len(prog.classes) <= 1 or len(keep) != 1:
+                return case, impl_line
+            c = keep[0]
+            if any(t is not None and t[0] == 'T' for f in c.flows for d in f.deps for t in (d.then, d.els)):
+                return case, impl_line
+            prog.classes = [c]
+            small = "%s| %s" % (hd, jdfgen.to_case(prog))
+            obs = self.one_case("shrink", 0, small)
+            if self.oracle(small, obs):
+                return small, obs
+        except Exception:
+            pass
+        return case, impl_line
+
     def search_cases(self):
         r = self.rng
         out = []
